@@ -41,7 +41,7 @@ type ecase struct {
 	Inverse int         `json:"inverse"` // index of the edge created with inverse relation "inv" (-1 none)
 	Dead    string      `json:"dead"`
 	Variant string      `json:"variant"` // settled | relink | closerace
-	Hist    int         `json:"hist"`    // history of the first edge before the delete: 0 fresh, 1 soft-unlinked and linked again, 2 weight changed
+	Hist    int         `json:"hist"`    // history before the delete: 0 fresh, 1 first edge soft-unlinked and linked again, 2 first edge's weight changed, 3 the node itself was deleted, added again and linked again (a second incarnation)
 }
 
 func (e ecase) String() string {
@@ -114,6 +114,27 @@ func exec(ec ecase) (problems []string, kind string) {
 			o2 := o
 			o2.W = 3
 			step(o2)
+		}
+	}
+	if ec.Hist == 3 {
+		// second incarnation of the node: delete it (cascade settles), add it again, link again
+		step(hx.Op{K: hx.VDel, I: "i", ID: ec.Dead})
+		di := 0
+		for i, n := range nodes {
+			if n == ec.Dead {
+				di = i
+			}
+		}
+		step(hx.Op{K: hx.VAdd, I: "i", ID: ec.Dead, V: []float32{float32(di), 1}, M: map[string]any{"name": ec.Dead}})
+		for i, e := range ec.Edges {
+			if e[0] != ec.Dead && e[1] != ec.Dead {
+				continue
+			}
+			o := hx.Op{K: hx.VLink, I: "i", ID: e[0], ID2: e[1], S: e[2], W: 1, M: map[string]any{"k": float64(i)}}
+			if i == ec.Inverse {
+				o.S2 = "inv"
+			}
+			step(o)
 		}
 	}
 	u := hx.Universe{Indexes: []string{"i"}, IDs: append(append([]string(nil), nodes...), ghost, "never-id"), Rels: []string{"r", "q", "inv"}, Keys: []string{"never-key"}}
@@ -334,7 +355,7 @@ func run(c *vk.Ctx) {
 					continue
 				}
 				for _, variant := range []string{"settled", "relink", "closerace"} {
-					for hist := 0; hist < 3; hist++ {
+					for hist := 0; hist < 4; hist++ {
 						if !c.Mine() {
 							continue
 						}
